@@ -90,7 +90,29 @@ def drive_stages(rec, ns, quick):
     rec.data["events"] = events
 
 
-def drive_products(rec, ells, pats=("max", "alt", "single", "lane")):
+def lowmax_pair(qc, kind, rng):
+    """one term (x, y) whose half-word products are all congruent to -1 modulo the half-word size: every low half the kernels add up
+    is at its maximum (the 'max' pattern maximises the high halves instead)"""
+    q = qc.q
+    xs, ys = [], []
+    for k in range(4):
+        if kind == "bbc" or kind.startswith("x2"):
+            v = rng.randrange(0, q[k])
+            r0, r1 = v, (v << 32) % q[k]
+            r0 += q[k] * (1 - r0 % 2)       # odd representatives (q is odd, and 2q < 2^32)
+            r1 += q[k] * (1 - r1 % 2)
+            xs.append(((-pow(r0, -1, 1 << 32)) % (1 << 32)) | (((-pow(r1, -1, 1 << 32)) % (1 << 32)) << 32))
+            ys += [r0, r1]
+        else:
+            w = 16 if kind == "baa" else 32
+            b = rng.randrange(0, 1 << w) | 1
+            a = (-pow(b, -1, 1 << w)) % (1 << w)
+            xs.append(a | (a << w))
+            ys.append(b | (b << w))
+    return xs, ys
+
+
+def drive_products(rec, ells, pats=("max", "alt", "single", "lane", "lowmax")):
     rng = random.Random(rec.seed + 77 + (ells[0] if ells else 0))
     L = Lib.get()
     qc = q120.Q(L)
@@ -108,6 +130,11 @@ def drive_products(rec, ells, pats=("max", "alt", "single", "lane")):
                 elif pat == "lane":     # one maximal lane per term, the others exactly zero, against maximal second operands
                     xs = [c10.lanes(qc, lx, "lane", rng, i) for i in range(ell * xe)]
                     ys = [c10.lanes(qc, ly, "max", rng, i) for i in range(ell * ye)]
+                elif pat == "lowmax":   # every low half-word product at its maximum: the low partial sums reach their bound
+                    prs = [lowmax_pair(qc, kind, rng) for i in range(ell * xe)]
+                    xs, ys = [p[0] for p in prs], [p[1] for p in prs]
+                    if kind == "x2c2":   # two columns against the same x: the same second operands in both
+                        ys = [ys[2 * (i // 4) + i % 2] for i in range(ell * ye)]
                 else:
                     xs = [c10.lanes(qc, lx, pat, rng, i) for i in range(ell * xe)]
                     ys = [c10.lanes(qc, ly, "max" if pat == "max" else "noncanon", rng, i) for i in range(ell * ye)]
